@@ -143,6 +143,14 @@ def _hist_encodings():
     return out
 
 
+def _ev_sec(i):
+    """SEC encodings of many distinct points (lifted from small x, so no scalar multiplication is needed)"""
+    x = 1000 + i
+    while secp.lift_x(x, False) is None:
+        x += 100003
+    return secp.sec((x, secp.lift_x(x, bool(i % 4 == 0))), compressed=(i % 3 != 0)).hex()
+
+
 class ParseHistories:
     """PublicKey.parse / PrivateKey construction calls in sequence within one process (a point and its negation share x;
     k and n-k share x): every answer must equal the answer of a fresh process. canon = the history."""
@@ -263,4 +271,8 @@ def run(ctx):
                 parallel=False)
     from ..bfs import bfs
     bfs(ctx, "parse-call-histories", ParseHistories(), 3 if ctx.thorough else 2)
+    from ..bfs import long_histories
+    long_histories(ctx, "parse-call-histories+long", ParseHistories(), rotations=8 if ctx.thorough else 4, rounds=3)
+    from ..bfs import eviction_probe
+    eviction_probe(ctx, "parse-call-histories+revisits", ParseHistories(), lambda i: ["prv", "%x" % (0xC0FFEE + 7 * i)] if i % 2 else ["pub", _ev_sec(i)])
     return {}
